@@ -69,16 +69,34 @@ class CriticalPathCalculator:
         self.__tasks[task.id] = task
 
         p_ids = []
-        for p in task.predecessors:
+        for p in self.__leaf_predecessors(task):
             if id(p) not in self.__scope:
                 continue
-            p_ids.append(p.id)
+            if p.id not in p_ids:
+                p_ids.append(p.id)
             self.__insert_task(p)
 
         estimate = task.estimate if task.estimate is not None else 0
         spent = task.spent if task.spent is not None else 0
 
         self.__add_work(task.id, max(estimate - spent, 0), p_ids)
+
+    @staticmethod
+    def __leaves(task: Task) -> List[Task]:
+        if len(task.children) == 0:
+            return [task]
+        res = []
+        for ch in task.children:
+            res += CriticalPathCalculator.__leaves(ch)
+        return res
+
+    @staticmethod
+    def __leaf_predecessors(task: Task) -> List[Task]:
+        # a summary task given as predecessor stands for all of its leaf tasks
+        res = []
+        for p in task.predecessors:
+            res += CriticalPathCalculator.__leaves(p)
+        return res
 
     def __new_node(self) -> _PNode:
         res = _PNode()
